@@ -218,7 +218,7 @@ impl Prop for C17 {
             // one subtitle track at 65536 ticks per second: one chunk per 65536 one-byte samples
             // keeps every table of the muxer small while the sample counters run past 2^32
             let tc = TrackCfg { kind: Kind::Ttxt, track_type: Kind::Ttxt.natural_track_type(), timescale: 65536, language: "und".into(), width: 0, height: 0, sps: vec![], pps: vec![], aac_profile: 2, freq_index: 3, chan_conf: 2, bitrate: 0 };
-            let sc = MuxScenario { cfg: MovieCfg { major: *b"isom", minor: 512, compat: vec![], timescale: 1000 }, ops: vec![Op::AddTrack(tc)], start_pos: 0, io: IoKnobs::plain(), preexisting: 0, fault: None };
+            let sc = MuxScenario { cfg: MovieCfg { major: *b"isom", minor: 512, compat: vec![], timescale: 1000 }, ops: vec![Op::AddTrack(tc)], start_pos: 0, io: IoKnobs::plain(), preexisting: 0, fault: None, fault_len: 0, fault_api: None };
             return HostileCase { sc, fault: None, repeat: (1u64 << 32) + 70_000, reposition: None, regions: None };
         }
         let mut o = GenOpts::hostile();
